@@ -145,12 +145,10 @@ class GraphQLField:
 
         # Collect variables from subfields
         for subfield in self._subfields:
-            subfield.get_formatted_variables()
-            formatted_variables.update(subfield.formatted_variables)
+            formatted_variables.update(subfield.get_formatted_variables())
 
         # Collect variables from inline fragments
         for subfields in self._inline_fragments.values():
             for subfield in subfields:
-                subfield.get_formatted_variables()
-                formatted_variables.update(subfield.formatted_variables)
+                formatted_variables.update(subfield.get_formatted_variables())
         return formatted_variables
